@@ -62,6 +62,12 @@ SliceTab ==
     "nS"     :> S(MIX, <<>>, {}, {}, FALSE, {}, {"XFade2", "LinXFade2", "Balance2", "Rotate2", "BiPanB2", "FreeVerb2", "DecodeB2",
                                                "Pan4", "PanB", "LPF", "HPF"}, {}, 1, "Out", 2, TRUE) @@
     "listS"  :> S(MIX, <<>>, {}, {}, FALSE, {}, {"list"}, {2}, 1, "OutAll", 1, FALSE) @@
+    \* dead code next to fusable sums: m = osc * k, then two instructions over {osc, m, k}; whatever is not output is dead and
+    \* its elimination releases inputs that a neighbouring + may or may not have been fused with (C20: repeated builds)
+    "dfS"    :> S(<<Gen("SinOsc", 2, 1, <<C(440), C(0)>>), Bin("*", R(1, 0), Pm(1))>>, K1, {}, {"+", "*"}, FALSE, {}, {}, {}, 2,
+                  "Out", 2, FALSE) @@
+    "df3"    :> S(<<Gen("SinOsc", 2, 1, <<C(440), C(0)>>), Bin("*", R(1, 0), Pm(1))>>, K1, {"neg"}, {"+", "*", "-"}, FALSE, {}, {}, {2},
+                  2, "Out", 2, FALSE) @@
     "twoS"   :> S(MIX, <<>>, {"neg"}, {"+", "*"}, FALSE, {}, {}, {2}, 1, "Out2", 2, FALSE) @@
     "zeroS"  :> S(AR2, <<>>, {"neg"}, {"+", "*"}, FALSE, {}, {}, {0}, 1, "Out0", 2, FALSE) @@
     "localS" :> S(MIX, <<>>, {"neg"}, {"+"}, FALSE, {}, {}, {2}, 1, "LocalOut", 1, FALSE) @@
